@@ -80,7 +80,7 @@ int c_var2h(int nvalvar, int nvalh,
         }
 
         /* Start and end of integration */
-        start = (double)(hstartsec+i*nbsec_per_period);
+        start = (double)(hstartsec+(long long)i*nbsec_per_period);
         end = start+nbsec_per_period_d;
 
         /* Initialisation */
